@@ -108,6 +108,9 @@ def run_case(case, ctx):
     for kind in AM.KNAMES:
         arr = np.asarray(getattr(r, atomsgen.ARR[kind])).reshape(-1, atomsgen.WIDTH[kind])
         got = {}
+        if arr.size and (int(arr.min()) < 0 or int(arr.max()) >= len(image_of)):
+            ctx.fail("replicate%s: %s refer to atom index %d, the replica has %d atoms" % (dims, atomsgen.ARR[kind], int(arr.max()) if int(arr.max()) >= len(image_of) else int(arr.min()), len(image_of)), witness=w)
+            continue
         for row, (tup, tok, ex) in zip(arr, mr.terms[kind]):
             imgs = {image_of[int(i)] for i in row}
             if len(imgs) != 1:
